@@ -197,6 +197,94 @@ Proof.
   destruct r; cbn; auto.
 Qed.
 
+Lemma many_loop_inscope ev c : ev_inscope ev -> forall fuel len s acc,
+  inrel s (snd (many_loop ev c fuel len s acc)).
+Proof.
+  intros Hev. induction fuel as [|f IH]; intros len s acc; cbn [many_loop]; [apply inrel_refl|].
+  pose proof (parse_option_inscope ev len s c Hev) as H.
+  destruct (parse_option ev len s c) as [[o l] s1]. cbn [snd] in H.
+  destruct o; cbn [snd]; try exact H. eapply inrel_trans; [exact H|apply IH].
+Qed.
+Lemma many_inscope ev c : ev_inscope ev -> ev_inscope (many_body ev c).
+Proof.
+  intros Hev s. unfold many_body. pose proof (many_loop_inscope ev c Hev (loop_fuel s) None s []) as H.
+  destruct (many_loop ev c (loop_fuel s) None s []) as [[r acc] s1]. destruct r; exact H.
+Qed.
+Lemma some_inscope ev m c : ev_inscope ev -> ev_inscope (some_body ev m c).
+Proof.
+  intros Hev s. unfold some_body. pose proof (many_loop_inscope ev c Hev (loop_fuel s) None s []) as H.
+  destruct (many_loop ev c (loop_fuel s) None s []) as [[r acc] s1]. destruct r; try exact H. destruct acc; exact H.
+Qed.
+Lemma count_loop_inscope ev : ev_inscope ev -> forall fuel len s cur n last,
+  inrel s (snd (count_loop ev fuel len s cur n last)).
+Proof.
+  intros Hev. induction fuel as [|f IH]; intros len s cur n last; cbn [count_loop]; [apply inrel_refl|].
+  pose proof (parse_option_inscope ev len s false Hev) as H.
+  destruct (parse_option ev len s false) as [[o l] s1]. cbn [snd] in H.
+  destruct o; cbn [snd]; try exact H.
+  destruct (Nat.eqb cur (remaining s1)); cbn [snd]; [exact H|]. eapply inrel_trans; [exact H|apply IH].
+Qed.
+Lemma count_inscope ev : ev_inscope ev -> ev_inscope (count_body ev).
+Proof.
+  intros Hev s. unfold count_body. pose proof (count_loop_inscope ev Hev (loop_fuel s) None s (remaining s) 0 None) as H.
+  destruct (count_loop ev (loop_fuel s) None s (remaining s) 0 None) as [[[r n] l] s1]. destruct r; exact H.
+Qed.
+Lemma last_inscope ev : ev_inscope ev -> ev_inscope (last_body ev).
+Proof.
+  intros Hev s. unfold last_body. pose proof (count_loop_inscope ev Hev (loop_fuel s) None s (remaining s) 0 None) as H.
+  destruct (count_loop ev (loop_fuel s) None s (remaining s) 0 None) as [[[r n] l] s1]. cbn [snd] in H.
+  destruct r; try exact H. destruct l; [exact H|]. eapply inrel_trans; [exact H|apply Hev].
+Qed.
+Lemma fallback_with_inscope ev fb : ev_inscope ev -> ev_inscope (fallback_with_body ev fb).
+Proof.
+  intros Hev s. unfold fallback_with_body. specialize (Hev s). destruct (ev s) as [r s']. cbn in Hev.
+  destruct r; cbn; auto. destruct (can_catch m); [destruct fb|]; cbn; apply inrel_refl.
+Qed.
+Lemma hide_inscope ev : ev_inscope ev -> ev_inscope (hide_body ev).
+Proof.
+  intros Hev s. unfold hide_body. specialize (Hev s). destruct (ev s) as [r s']. cbn in Hev.
+  destruct r; cbn; auto. destruct m; exact Hev.
+Qed.
+
+Lemma inrel_save_conflicts s x loser w : inrel s x -> inrel s (save_conflicts x loser w).
+Proof.
+  intros (S1 & I1 & L1 & C1). unfold save_conflicts.
+  split; [exact S1|]. split; [exact I1|]. split; [cbn; rewrite save_conflicts_go_length; exact L1|].
+  intros i Hl Hd. apply C1; [exact Hl|]. intros Hx. apply Hd.
+  unfold live, present_at, ist_at in *. cbn. rewrite save_conflicts_go_present. exact Hx.
+Qed.
+
+Lemma this_or_that_states ra rb s sa sb r s' :
+  this_or_that ra rb s sa sb = (r, s') ->
+  s' = s \/ s' = sa \/ s' = sb \/ (exists w, s' = save_conflicts sa sb w) \/ (exists w, s' = save_conflicts sb sa w).
+Proof.
+  unfold this_or_that. intros H.
+  destruct (Nat.compare (depth sa) (depth sb)).
+  - destruct ra, rb; cbn in H;
+      try (inv H; auto; fail);
+      (destruct (Nat.eqb (remaining s) (remaining sa) && Nat.eqb (remaining s) (remaining sb));
+       [inv H; auto|]);
+      destruct (pick_winner sa sb) as [[|] [w|]]; inv H; eauto 8.
+  - destruct rb; inv H; auto.
+  - destruct ra; inv H; auto.
+Qed.
+
+Lemma or_inscope eva evb : ev_inscope eva -> ev_inscope evb -> ev_inscope (or_body eva evb).
+Proof.
+  intros Ha Hb s. unfold or_body. specialize (Ha s). specialize (Hb s).
+  destruct (eva s) as [ra sa]. cbn in Ha.
+  assert (Hmain : forall rb sb, inrel s sb ->
+            inrel s (snd (match this_or_that ra rb s sa sb with
+                          | (inl true, s') => (ra, s') | (inl false, s') => (rb, s') | (inr e, s') => (RErr e, s') end))).
+  { intros rb sb Hsb. destruct (this_or_that ra rb s sa sb) as [r s'] eqn:E.
+    apply this_or_that_states in E.
+    assert (Hs' : inrel s s').
+    { destruct E as [->|[->|[->|[[w ->]|[w ->]]]]]; auto using inrel_refl, inrel_save_conflicts. }
+    destruct r as [[|]|e]; exact Hs'. }
+  destruct ra; cbn [snd]; try exact Ha;
+    (destruct (evb s) as [rb sb]; cbn in Hb; destruct rb; cbn [snd]; try exact Hb; apply Hmain; exact Hb).
+Qed.
+
 Lemma con_go_inscope ff evs s first acc err :
   Forall ev_inscope evs -> inrel s (snd (con_go ff evs s first acc err)).
 Proof.
